@@ -1,7 +1,7 @@
 """C19 layout driver: runs ONE invocation of the real pypyr inside a fresh process whose cwd
 is the layout's working directory (pypyr.config freezes cwd at import).
 
-stdin : {"builtin": <dir or null>, "subdir": <str or null>,
+stdin : {"builtin": <dir or null>, "subdir": <str or null>, "pre_syspath": [dirs],
          "invoke": {"name":..., "loader":..., "py_dir":...}}
 stdout: one JSON object (raw observation; the parent process canonicalises the temp root)."""
 import json
@@ -11,6 +11,7 @@ import sys
 
 def main():
     spec = json.load(sys.stdin)
+    sys.path.extend(spec.get('pre_syspath') or [])     # entries that exist before pypyr runs
     before = list(sys.path)
     from pathlib import Path
     from pypyr.config import config
